@@ -202,7 +202,10 @@ def run(tier: str) -> int:
         worlds.append(C10Src(mode=mode, closure=True, size=4, seg=2, ack_limit=2))
     run_.bounds = {"depth": depth, "alphabet_sizes": [len(w.alphabet) for w in worlds]}
     for w in worlds:
-        r = explore(w, procs=NPROC, check_cycles=False, max_depth=depth, validate_stride=4999, validate_terminals=3, n_samples=1, max_states=3_000_000)
+        if run_.found_something():
+            run_.skip(w)
+            continue
+        r = explore(w, procs=NPROC, check_cycles=False, max_depth=depth, validate_stride=4999, validate_terminals=3, n_samples=1, max_states=3_000_000, max_wall=(600 if tier == 'quick' else None))
         run_.add(r)
     run_.cap_hit = False
     run_.extra["depth_bound"] = depth
